@@ -70,6 +70,17 @@ def instances(tier, seed):
         for grp in range(2 if tier == "quick" else 6):
             out.append({"name": "CH-%s-g%d" % ("".join(map(str, lt)), grp), "fn": "lemma_chars", "timeout": T, "cost": 6 ** sum(lt) / 10,
                         "params": {"lens": list(lt), "grp": grp, "chars": True, "npat": 3 if (tier == "quick" and sum(lt) >= 3) else 9}})
+    # two adjacent runs, one with only a foreground and one with only a background colour, every pair, both orders, with and
+    # without a common style (code that keys on the attribute set must tell all of them apart)
+    for order in (0, 1):
+        for sty in (0, 1):
+            out.append({"name": "L2-pairs-o%d-s%d" % (order, sty), "fn": "lemma2", "timeout": T,
+                        "params": {"K": 2, "first": None, "sample": False, "pairs": [order, sty]}})
+    # the same values built by CONCATENATION of operands that were rendered before (plain str operands for unformatted runs)
+    for K in (2, 3):
+        for first in (range(0, len(REDUCED), 3) if tier == "quick" else range(len(REDUCED))):
+            out.append({"name": "L2-concat-K%d-first%d" % (K, first), "fn": "lemma2", "timeout": T,
+                        "params": {"K": K, "first": first, "sample": K == 3, "via": "concat"}})
     for K in (0, 1, 2, 3):
         firsts = [None] if (K < 2) else list(range(len(REDUCED)))
         if tier == "quick" and K == 3:
@@ -233,6 +244,14 @@ def _l2_patterns():
     import itertools
     K = P["K"]
     out = []
+    if P.get("pairs"):
+        order, sty = P["pairs"]
+        extra = {"bold": True} if sty else {}
+        for fg in range(30, 38):
+            for bg in range(40, 48):
+                a, b = dict(extra, fg=fg), dict(extra, bg=bg)
+                out.append((a, b) if order == 0 else (b, a))
+        return out
     for t in itertools.product(range(len(REDUCED)), repeat=K):
         if P["first"] is not None and t and t[0] != P["first"]:
             continue
@@ -246,6 +265,29 @@ def _l2_n():
     return len(_l2_patterns())
 
 
+def _l2_build(ns, attl, K, mk_text):
+    from curtsies.formatstring import FmtStr, Chunk
+    if P.get("via") != "concat":
+        return FmtStr(*[Chunk(mk_text(i, ns[i]), attl[i]) for i in range(K)])
+    # operands rendered / measured first, then joined with + ; an unformatted run is given as a plain str
+    f = None
+    for i in range(K):
+        t = mk_text(i, ns[i])
+        if attl[i] == {} and not (i == 0 and K == 1):
+            piece = t
+        else:
+            piece = FmtStr(Chunk(t, attl[i]))
+            H.warm(piece)
+        if f is None:
+            f = piece
+        else:
+            f = f + piece
+            H.warm(f)
+    if type(f).__name__ != "FmtStr":
+        f = FmtStr(Chunk(f))
+    return f
+
+
 def lemma2(n0: int, n1: int, n2: int, sel: int) -> bool:
     """
     pre: n0 >= 0 and n1 >= 0 and n2 >= 0 and 0 <= sel < len(PATS)
@@ -256,8 +298,8 @@ def lemma2(n0: int, n1: int, n2: int, sel: int) -> bool:
     K = P["K"]
     ns = [n0, n1, n2][:K]
     ai = PATS[realize(sel)]      # one path per pattern tuple
-    attl = [REDUCED[i] for i in ai]
-    f = FmtStr(*[Chunk(SegStr.source(i, ns[i]), attl[i]) for i in range(K)])
+    attl = [REDUCED[i] if isinstance(i, int) else i for i in ai]
+    f = _l2_build(ns, attl, K, SegStr.source)
     out = str(f)
     with NoTracing():
         segs = _segs_of(out)
@@ -284,7 +326,7 @@ def lemma2(n0: int, n1: int, n2: int, sel: int) -> bool:
         if di != len(draws):
             return verdict(False)
         ok = z3.And(*conj) if conj else z3.BoolVal(True)
-        nontrivial = z3.And(*[zint(x) >= 1 for x in ns]) if (len(set(ai)) == K and K) else z3.BoolVal(K == 0)
+        nontrivial = z3.And(*[zint(x) >= 1 for x in ns]) if (len({repr(a) for a in ai}) == K and K) else z3.BoolVal(K == 0)
     return verdict(sbool(ok), sbool(nontrivial))
 
 
@@ -386,7 +428,7 @@ def concrete(fn, params, args):
     else:
         K = params["K"]
         ai = _l2_patterns()[args[3]]
-        runs = [(args[i], REDUCED[ai[i]]) for i in range(K)]
+        runs = [(args[i], REDUCED[ai[i]] if isinstance(ai[i], int) else ai[i]) for i in range(K)]
     if any(n > 3000 for n, _ in runs):
         return {"ok": None, "note": "counterexample too large to replay"}
     res = None
@@ -395,9 +437,14 @@ def concrete(fn, params, args):
             f0 = FmtStr(Chunk(_text(0, runs[0][0], exotic)))
             str(f0), len(f0), f0.s
             f = f0.copy_with_new_atts(**runs[0][1])
+        elif params.get("via") == "concat":
+            f = _l2_build([n for n, _ in runs], [a for _, a in runs], len(runs), lambda i, n: _text(i, n, exotic))
         else:
             f = FmtStr(*[Chunk(_text(i, n, exotic), a) for i, (n, a) in enumerate(runs)])
         want = cells(f)
+        if params.get("via") == "concat":
+            from chx.common import disp as _disp
+            want = [(c, _disp(a)) for i, (n, a) in enumerate(runs) for c in _text(i, n, exotic)]
         s = str(f)
         r = sgr_interpret(s)
         if r is None:
